@@ -1,4 +1,4 @@
-import ExprModel.Proofs.SoundColl
+import ExprModel.Proofs.SoundCall
 /-
 Soundness against `Spec.eval`: assembly.  The predicate builtins at the level of the checker, the
 fragment predicates (`inFrag2`, `typed2`) and the induction over the extended fragment.
@@ -145,6 +145,10 @@ def inFrag2 : Node → Bool
   | .binary _ op l r => (fragBinary op || op == "in" || op == "not in" || op == "..") && inFrag2 l && inFrag2 r
   | .cond _ c a b => inFrag2 c && inFrag2 a && inFrag2 b
   | .index _ x i => inFrag2 x && inFrag2 i
+  | .slice _ x none none => inFrag2 x
+  | .slice _ x (some f) none => inFrag2 x && inFrag2 f
+  | .slice _ x none (some t) => inFrag2 x && inFrag2 t
+  | .slice _ x (some f) (some t) => inFrag2 x && inFrag2 f && inFrag2 t
   | .builtin _ name [a] => name == "len" && inFrag2 a
   | .builtin _ name [a, .closure _ b] => isPredBuiltin name && inFrag2 a && inFrag2 b
   | _ => false
@@ -185,6 +189,12 @@ def typed2 (cfg : CheckCfg) : List OTy → Node → Bool
       scalarOK (synth cfg cs b) && typed2 cfg cs c && typed2 cfg cs a && typed2 cfg cs b
   | cs, .index _ x i =>
     sliceOK (synth cfg cs x) && intOK (synth cfg cs i) && typed2 cfg cs x && typed2 cfg cs i
+  | cs, .slice _ x none none => sliceOK (synth cfg cs x) && typed2 cfg cs x
+  | cs, .slice _ x (some f) none => sliceOK (synth cfg cs x) && typed2 cfg cs x && intOK (synth cfg cs f) && typed2 cfg cs f
+  | cs, .slice _ x none (some t) => sliceOK (synth cfg cs x) && typed2 cfg cs x && intOK (synth cfg cs t) && typed2 cfg cs t
+  | cs, .slice _ x (some f) (some t) =>
+    sliceOK (synth cfg cs x) && typed2 cfg cs x && intOK (synth cfg cs f) && typed2 cfg cs f &&
+      intOK (synth cfg cs t) && typed2 cfg cs t
   | cs, .builtin _ _ [a] => lenOK (synth cfg cs a) && typed2 cfg cs a
   | cs, .builtin _ _ [a, .closure _ b] =>
     sliceOK (synth cfg cs a) && typed2 cfg cs a &&
@@ -197,6 +207,20 @@ theorem envConforms_of2 {cfg : CheckCfg} {env : Val} (h : EnvConforms2 cfg env) 
   intro name ns τ hr hs
   obtain ⟨v, hv, hk⟩ := h name ns τ (.sc τ.kind) hr (vtyOf_scalar hs)
   exact ⟨v, hv, hk⟩
+
+theorem sliceOK_elim {o : Option OTy} (h : sliceOK o = true) :
+    ∀ t, o = some t → ∃ k, sliceElemKind t = some k := by
+  intro t ht
+  rw [ht] at h
+  simp only [sliceOK, Option.isSome_iff_exists] at h
+  exact h
+
+theorem intOK_elim {o : Option OTy} (h : intOK o = true) :
+    ∀ it, o = some it → ScalarT it ∧ isIntegerT it = true := by
+  intro it hit
+  rw [hit] at h
+  simp only [intOK, Bool.and_eq_true] at h
+  exact ⟨h.1, h.2⟩
 
 /-- **Soundness on the extended fragment**, by recursion over the tree. -/
 theorem frag2_sound (hd : E .divzero) (hi : E .index) (hbud : E .budget) (cfg : CheckCfg) (c : SCfg)
@@ -289,6 +313,34 @@ theorem frag2_sound (hd : E .divzero) (hi : E .index) (hbud : E .budget) (cfg : 
       rw [h] at hsi
       simp only [intOK, Bool.and_eq_true] at hsi
       exact ⟨hsi.1, hsi.2⟩
+  | .slice m x none none, cs, hf, ht => by
+    simp only [inFrag2] at hf
+    simp only [typed2, Bool.and_eq_true] at ht
+    refine spec2_slice hi cfg c cs m x none none (frag2_sound hd hi hbud cfg c henv x cs hf ht.2)
+      (fun n h => by cases h) (fun n h => by cases h) (sliceOK_elim ht.1)
+      (fun n it h => by cases h) (fun n it h => by cases h)
+  | .slice m x (some f) none, cs, hf, ht => by
+    simp only [inFrag2, Bool.and_eq_true] at hf
+    simp only [typed2, Bool.and_eq_true] at ht
+    obtain ⟨⟨⟨h1, h2⟩, h3⟩, h4⟩ := ht
+    refine spec2_slice hi cfg c cs m x (some f) none (frag2_sound hd hi hbud cfg c henv x cs hf.1 h2)
+      (fun n h => by cases h; exact frag2_sound hd hi hbud cfg c henv f cs hf.2 h4) (fun n h => by cases h)
+      (sliceOK_elim h1) (fun n it h => by cases h; exact intOK_elim h3 it) (fun n it h => by cases h)
+  | .slice m x none (some t), cs, hf, ht => by
+    simp only [inFrag2, Bool.and_eq_true] at hf
+    simp only [typed2, Bool.and_eq_true] at ht
+    obtain ⟨⟨⟨h1, h2⟩, h3⟩, h4⟩ := ht
+    refine spec2_slice hi cfg c cs m x none (some t) (frag2_sound hd hi hbud cfg c henv x cs hf.1 h2)
+      (fun n h => by cases h) (fun n h => by cases h; exact frag2_sound hd hi hbud cfg c henv t cs hf.2 h4)
+      (sliceOK_elim h1) (fun n it h => by cases h) (fun n it h => by cases h; exact intOK_elim h3 it)
+  | .slice m x (some f) (some t), cs, hf, ht => by
+    simp only [inFrag2, Bool.and_eq_true] at hf
+    simp only [typed2, Bool.and_eq_true] at ht
+    obtain ⟨⟨⟨⟨⟨h1, h2⟩, h3⟩, h4⟩, h5⟩, h6⟩ := ht
+    refine spec2_slice hi cfg c cs m x (some f) (some t) (frag2_sound hd hi hbud cfg c henv x cs hf.1.1 h2)
+      (fun n h => by cases h; exact frag2_sound hd hi hbud cfg c henv f cs hf.1.2 h4)
+      (fun n h => by cases h; exact frag2_sound hd hi hbud cfg c henv t cs hf.2 h6)
+      (sliceOK_elim h1) (fun n it h => by cases h; exact intOK_elim h3 it) (fun n it h => by cases h; exact intOK_elim h5 it)
   | .builtin m name [a], cs, hf, ht => by
     simp only [inFrag2, Bool.and_eq_true, beq_iff_eq] at hf
     simp only [typed2, Bool.and_eq_true] at ht
@@ -323,7 +375,7 @@ theorem frag2_sound (hd : E .divzero) (hi : E .index) (hbud : E .budget) (cfg : 
       rw [hb'] at this
       exact this
   | .nil _, _, hf, _ | .const _ _, _, hf, _ | .matches _ _ _ _, _, hf, _ | .prop _ _ _ _, _, hf, _
-  | .slice _ _ _ _, _, hf, _ | .method _ _ _ _ _, _, hf, _ | .func _ _ _ _, _, hf, _
+  | .method _ _ _ _ _, _, hf, _ | .func _ _ _ _, _, hf, _
   | .closure _ _, _, hf, _ | .array _ _, _, hf, _ | .map _ _, _, hf, _ | .pair _ _ _, _, hf, _ => by
     simp [inFrag2] at hf
   | .builtin _ _ [], _, hf, _ => by simp [inFrag2] at hf
